@@ -28,7 +28,7 @@ def gen_history(hrng):
     for _ in range(n - 2):
         k = hrng.choice(OPS)
         if k == "synth":
-            ops.append({"op": "synth", "strategy": hrng.choice(STRATS), "n": hrng.choice([0, 1, 1, 3]), "out": "e%d" % nexp})
+            ops.append({"op": "synth", "strategy": hrng.choice(STRATS), "n": hrng.choice([0, 1, 1, 3, 4]), "out": "e%d" % nexp})
             nexp += 1
         elif k == "csv":
             ops.append({"op": "csv", "exp": "e%d" % hrng.randrange(nexp), "prefix": hrng.choice(["out", "experiment", "run_a"])})
@@ -161,7 +161,7 @@ def run_history(case):
                             before = set(w.fs.files)
                             sp.save_experiments_csv(blk, e, op["prefix"])
                             obs["c20"].append(("csv", oi, e, op["prefix"], {k: w.fs.files[k] for k in w.fs.files if k.endswith(".csv")},
-                                               sum(w.fault_fired.values()) > faults_before))
+                                               sum(w.fault_fired.values()) - faults_before))
                         elif kind == "tuples":
                             obs["c20"].append(("tuples", oi, e, sp.experiments_to_tuples(blk, e)))
                         elif kind == "dicts":
